@@ -12,13 +12,15 @@ rationals (tied to the source by the regenerated NL ladder and by differential e
 `report 17 i lat lon` the format-`i` airborne report of the point.  All theorems quantify over ALL rational
 `(lat, lon)` with `lat ∈ [-90, 90]` — exact arithmetic, no sampling.
 
-"Within 10 m" is proved in degrees: the returned position is the encoder's recovered lattice point
-`(Rlat_p, Rlon_p)` of the later report, which is within half a quantisation step of the true point on each
-axis (`Dlat_p / 2^18 ≤ 2.33·10⁻⁵ °` in latitude, `Dlon_p / 2^18` in longitude, modulo 360).  The
-conversion of those two bounds into metres on the ellipsoid (≤ 9.7 m in the worst band, 86.5°–87°) needs
-trigonometry and is checked numerically by the harness oracle only.
+"Within 10 m": the returned position is the encoder's recovered lattice point `(Rlat_p, Rlon_p)` of the
+later report, which is within half a quantisation step of the true point on each axis (`recovered_close`:
+`Dlat_p / 2^18 ≤ 2.33·10⁻⁵ °` in latitude, `Dlon_p / 2^18` in longitude, modulo 360).  The conversion to
+metres is a theorem too (last section: `nl_band_cos`, `recovered_axes_metres`, `recovered_within_10m`,
+`global_within_10m`): on the sphere of radius 6 399 594 m (largest radius of curvature of WGS-84) the
+great-circle distance is ≤ 9.629 m (≤ 6.251 m below 86.535° of latitude).  Not a theorem: sphere vs ellipsoid.
 -/
 import Rs1090.Proofs.CprGlobalSpec
+import Rs1090.Proofs.CprMetres
 namespace Rs1090.Props.C04
 open Rs1090 Rs1090.Model.Cpr Rs1090.Spec.Cpr Rs1090.Proofs.Cpr
 
@@ -167,6 +169,100 @@ theorem global_never_panics (a b : Msg) (s : Site) : airbornePosition a b ≠ .p
   · rw [globalCore_eq]; split_ifs <;> simp
   · simp
 
+/-! ### "within 10 m": from degrees to metres
+
+Metric.  The Earth is replaced by the sphere of radius `R_MAX = 6 399 594 m`, the largest radius of curvature
+of the WGS-84 ellipsoid (a²/b, at the poles; equatorial radius 6 378 137 m, mean 6 371 000 m are smaller) —
+the conservative choice, and the radius the harness oracle uses.  `Geo.chordSq` is the squared straight-line
+distance of two points of the unit sphere in ℝ³ (an elementary definition), `Geo.chordDist R` the chord,
+`Geo.gcDist R = 2R·arcsin(chord/2)` the great-circle distance.  `mPerDeg = R_MAX·3.141593/180 ≥ R_MAX·π/180`
+(111 694.0 m per degree of arc), `cosUB n` a 7-decimal rational upper bound of the cosine on the band NL = n.
+
+What is a theorem: everything below (spherical trigonometry from Mathlib: haversine identity, `sin² x ≤ x²`,
+`x − x³/6 ≤ sin x`, `cos` 1-Lipschitz; 59 cosine bounds from `Real.cos_bound`/`Real.sin_bound` and
+`3.141592 < π < 3.141593`).  What is not: that distances on the ellipsoid do not exceed distances on that
+sphere (modelling assumption, also made by the oracle).
+
+Honest numbers.  North-south ≤ 2.60 m everywhere.  East-west ≤ 5.68 m where NL ≥ 3 (|lat| < 86.535°) and
+≤ 9.27 m in the two polar bands.  Hence the distance (Euclidean combination — on the sphere this is exactly
+what the haversine identity gives) is ≤ 6.25 m resp. ≤ 9.63 m < 10 m; the *sum* of the two axes (taxicab) is
+≤ 8.28 m where NL ≥ 3 but up to 11.87 m in the polar bands, so "≤ 10 m" holds for the distance, not for the
+sum of the axis errors. -/
+
+open Rs1090.Proofs.Metres Rs1090.Proofs.Geo in
+/-- **A latitude lies at or above the lower edge of its NL band, and its cosine is at most `cosUB`** of the
+    band (`lowThr n` = transition latitude of the row n+1 of the standard's table; 0 for NL = 59, 87 for
+    NL = 1).  The trigonometric bridge between `Dlon = 360/(NL − i)` degrees and metres on the ground. -/
+theorem nl_band_cos (rl : ℚ) (h90 : |rl| ≤ 90) :
+    lowThr (NL rl) ≤ |rl| ∧ Real.cos (rad (rl : ℝ)) ≤ ((cosUB (NL rl) : ℚ) : ℝ) :=
+  ⟨lowThr_le rl, cos_band rl h90⟩
+
+open Rs1090.Proofs.Metres in
+/-- **The two axes in metres** (rational statement, no transcendental function): north-south
+    `mPerDeg·|Δlat| ≤ 2.6 m`, east-west `mPerDeg·cosUB(NL Rlat)·|Δlon| ≤ 5.68 m` (9.27 m where NL ≤ 2),
+    `NS² + EW² ≤ chordMax²` (6.25 m; 9.628 m where NL ≤ 2), and `NS + EW ≤ 8.28 m` where NL ≥ 3. -/
+theorem recovered_axes_metres (i : Nat) (hi : i ≤ 1) (lat lon : ℚ) :
+    ∃ k : ℤ,
+      nsM (rlat 17 i lat - lat) ≤ 26 / 10 ∧
+      ewM (NL (rlat 17 i lat)) (norm180 (rlon 17 i (rlat 17 i lat) lon) - (lon + 360 * k))
+        ≤ ewMax (NL (rlat 17 i lat)) ∧
+      nsM (rlat 17 i lat - lat) ^ 2
+        + ewM (NL (rlat 17 i lat)) (norm180 (rlon 17 i (rlat 17 i lat) lon) - (lon + 360 * k)) ^ 2
+        ≤ chordMax (NL (rlat 17 i lat)) ^ 2 ∧
+      (3 ≤ NL (rlat 17 i lat) →
+        nsM (rlat 17 i lat - lat)
+          + ewM (NL (rlat 17 i lat)) (norm180 (rlon 17 i (rlat 17 i lat) lon) - (lon + 360 * k))
+          ≤ 828 / 100) := by
+  obtain ⟨hA, k, hB⟩ := recovered_close i hi lat lon
+  obtain ⟨h1, h59⟩ := NL_range (rlat 17 i lat)
+  rw [dlon_eq_dlonOf] at hB
+  obtain ⟨a, b, c⟩ := axes_le _ i h1 h59 262144 _ _ hA hB
+  have a' := le_trans a (ns_air i hi)
+  have b' := le_trans b (ew_air _ h1 h59 i hi)
+  refine ⟨k, a', b', le_trans c (budget_air _ h1 h59 i hi), fun h3 => ?_⟩
+  have : ewMax (NL (rlat 17 i lat)) = 568 / 100 := by unfold ewMax; rw [if_pos h3]
+  rw [this] at b'
+  linarith
+
+open Rs1090.Proofs.Metres Rs1090.Proofs.Geo in
+/-- **The recovered lattice point is within 9.63 m of the true point** on the sphere of radius `R_MAX`
+    (chord ≤ 9.628 m, great-circle distance ≤ 9.629 m; ≤ 6.25 m / 6.251 m where NL ≥ 3, i.e. |Rlat| < 86.535°),
+    for both formats, every rational point with latitude in [-90, 90]. -/
+theorem recovered_within_10m (i : Nat) (hi : i ≤ 1) (lat lon : ℚ) (hlat : -90 ≤ lat ∧ lat ≤ 90) :
+    chordDist 6399594 (rad lat) (rad lon) (rad (rlat 17 i lat))
+        (rad (norm180 (rlon 17 i (rlat 17 i lat) lon))) ≤ 9628 / 1000 ∧
+    gcDist 6399594 (rad lat) (rad lon) (rad (rlat 17 i lat))
+        (rad (norm180 (rlon 17 i (rlat 17 i lat) lon))) ≤ 9629 / 1000 ∧
+    (3 ≤ NL (rlat 17 i lat) →
+      gcDist 6399594 (rad lat) (rad lon) (rad (rlat 17 i lat))
+        (rad (norm180 (rlon 17 i (rlat 17 i lat) lon))) ≤ 6251 / 1000) := by
+  obtain ⟨_, k, hB⟩ := recovered_close i hi lat lon
+  obtain ⟨hc, hg⟩ := air_dist i hi lat lon hlat _ k hB
+  have hm : ((chordMax (NL (rlat 17 i lat)) : ℚ) : ℝ) ≤ 9628 / 1000 := by
+    have := chordMax_le (NL (rlat 17 i lat))
+    calc ((chordMax (NL (rlat 17 i lat)) : ℚ) : ℝ) ≤ ((9628 / 1000 : ℚ) : ℝ) := Rat.cast_le.mpr this
+      _ = 9628 / 1000 := by norm_num
+  refine ⟨le_trans hc hm, by linarith, fun h3 => ?_⟩
+  have : chordMax (NL (rlat 17 i lat)) = 625 / 100 := by unfold chordMax; rw [if_pos h3]
+  rw [this] at hg
+  refine le_trans hg (by norm_num)
+
+open Rs1090.Proofs.Metres Rs1090.Proofs.Geo in
+/-- **Global decoding returns a position within 10 m of the point** (the property's clause, as a theorem on
+    the sphere of radius `R_MAX`): under the hypothesis of `global_correct`, both orders return a position
+    whose great-circle distance from the true point is at most 9.629 m. -/
+theorem global_within_10m (lat lon : ℚ) (hlat : -90 ≤ lat ∧ lat ≤ 90)
+    (hnl : NL (rlat 17 0 lat) = NL (rlat 17 1 lat)) :
+    ∃ p q : Pos,
+      airbornePosition (report 17 0 lat lon) (report 17 1 lat lon) = .ok (some p) ∧
+      airbornePosition (report 17 1 lat lon) (report 17 0 lat lon) = .ok (some q) ∧
+      gcDist 6399594 (rad lat) (rad lon) (rad p.lat) (rad p.lon) ≤ 9629 / 1000 ∧
+      gcDist 6399594 (rad lat) (rad lon) (rad q.lat) (rad q.lon) ≤ 9629 / 1000 ∧
+      (9629 / 1000 : ℝ) < 10 := by
+  obtain ⟨h1, h2⟩ := global_correct lat lon hlat hnl
+  exact ⟨_, _, h1, h2, (recovered_within_10m 1 le_rfl lat lon hlat).2.1,
+    (recovered_within_10m 0 (by norm_num) lat lon hlat).2.1, by norm_num⟩
+
 /-! ### non-vacuity: the repository's own test pairs, and satisfiable hypotheses -/
 
 /-- `decode_airporne_position`, first pair (8D40058B58C901375147EFD09357 / 8D40058B58C904A87F402D3B8C59):
@@ -191,5 +287,14 @@ example : NL (rlat 17 0 (104704523 / 10000000)) = 58 ∧ NL (rlat 17 1 (10470452
 
 /-- the repaired defect: 87° is an even lattice latitude and lies in the band NL = 2 -/
 example : rlat 17 0 87 = 87 ∧ nl 87 = 2 ∧ NL 87 = 2 := by decide +kernel
+
+open Rs1090.Proofs.Metres in
+/-- why the 10 m are stated for the distance and not for the sum of the axis errors: in the band NL = 2
+    (86.535° ≤ |lat| ≤ 87°), odd format (one 360° longitude zone), the two half steps are 2.60 m north-south
+    and 9.27 m east-west: 9.63 m in distance, 11.87 m in sum -/
+example : 1186 / 100 < mPerDeg * (dlat 1 / 262144) + mPerDeg * cosUB 2 * (dlonOf 2 1 / 262144) ∧
+    budget 2 1 262144 ≤ (9628 / 1000) ^ 2 := by
+  refine ⟨?_, le_trans (budget_air 2 (by norm_num) (by norm_num) 1 le_rfl) (by norm_num [chordMax])⟩
+  rw [dlat1]; norm_num [mPerDeg, cosUB, dlonOf]
 
 end Rs1090.Props.C04
